@@ -677,7 +677,7 @@ func (cpl ChangePeerV2Leave) ConfVerChanged(region *core.RegionInfo) uint64 {
 		}
 	}
 	for _, dv := range cpl.DemoteVoters {
-		if region.GetStorePeer(dv.PeerID) != nil && !dv.ConfVerChanged(region) {
+		if region.GetStorePeer(dv.ToStore) != nil && !dv.ConfVerChanged(region) {
 			return 0
 		}
 	}
